@@ -265,7 +265,8 @@ def run(p, report, tier):
             # y must not be used for statistics elsewhere (other than validation / is_labeled count for gamma)
             other = [n for n in ast.walk(f.node) if isinstance(n, ast.Name) and n.id == "y" and isinstance(n.ctx, ast.Load)
                      and not any(x is n for x in ast.walk(c))]
-            other = [n for n in other if not _in_call(f.node, n, ("_validate_data", "is_labeled"))]
+            other = [n for n in other if not _in_call(f.node, n, ("_validate_data", "is_labeled"))
+                     and not _handed_to_benign_helper(p, p.get_class(cname), f.node, n)]
             if other:
                 ok = False
                 why = f"labels are also read at line(s) {sorted({n.lineno for n in other})}"
@@ -343,6 +344,25 @@ def run(p, report, tier):
     c17.check_vote_weights(p, sub)
     report.assumptions += ["equality of predictions of the two fits as numbers is not decided",
                            "the wrapped estimator's fit is trusted to depend only on the arrays it is given"]
+
+
+def _handed_to_benign_helper(p, ci, fnode, node):
+    """`node` (a read of y) is an argument of self.<private helper>(...) whose own reads of that parameter are
+    confined to _validate_data / is_labeled (moving the bandwidth heuristic into a helper changes nothing)."""
+    for c in ast.walk(fnode):
+        if isinstance(c, ast.Call) and isinstance(c.func, ast.Attribute) and isinstance(c.func.value, ast.Name) \
+                and c.func.value.id == "self" and any(a is node for a in c.args):
+            g = p.find_method(ci, c.func.attr)
+            if g is None:
+                return False
+            params = [a for a in g.params() if a != "self"]
+            pos = [i for i, a in enumerate(c.args) if a is node][0]
+            if pos >= len(params):
+                return False
+            pn = params[pos]
+            reads = [x for x in ast.walk(g.node) if isinstance(x, ast.Name) and x.id == pn and isinstance(x.ctx, ast.Load)]
+            return all(_in_call(g.node, x, ("_validate_data", "is_labeled")) for x in reads)
+    return False
 
 
 def _in_call(fnode, node, names):
